@@ -125,7 +125,10 @@ void generic_candidates(const Plan &p, std::vector<Plan> &out) {
 			for (int64_t n : {(int64_t) 0, (int64_t) 1, cur / 2, cur - 1})
 				if (n >= 0 && n < cur) { Plan c = p; c.members[i].cut = n; out.push_back(c); }
 		}
-		if (m.ext.size() > 0)
+		// dropping an extended header changes what the member says about itself; only for oracles that do not
+		// compare with generator ground truth
+		bool no_ground_truth = p.property == "C08" || p.property == "C13" || p.property == "C16" || p.property == "C11" || p.property == "C12" || p.property == "C20" || p.property == "C15";
+		if (m.ext.size() > 0 && no_ground_truth)
 			for (size_t e = 0; e < m.ext.size(); ++e) {
 				Plan c = p;
 				c.members[i].ext.erase(c.members[i].ext.begin() + e);
